@@ -283,8 +283,8 @@ pub fn gen_op(c: &mut Choices, fam: FamId, nkeys: usize) -> Op {
         15 | 16 | 17 => {
             let nr = c.below(4);
             let ni = c.below(4);
-            let remove = (0..nr).map(|_| gen_any_key(c, fam)).collect();
-            let insert = (0..ni)
+            let mut remove: Vec<Vec<u8>> = (0..nr).map(|_| gen_any_key(c, fam)).collect();
+            let mut insert: Vec<(Vec<u8>, Vec<u8>)> = (0..ni)
                 .map(|_| {
                     let key = gen_any_key(c, fam);
                     // values are plain byte strings here
@@ -306,6 +306,33 @@ pub fn gen_op(c: &mut Choices, fam: FamId, nkeys: usize) -> Op {
                     (key, v)
                 })
                 .collect();
+            // the same key twice in one list, and in both lists (in either order of the lists' entries)
+            if !remove.is_empty() && c.chance(50) {
+                let j = c.below(remove.len());
+                let d = remove[j].clone();
+                remove.push(d);
+            }
+            if !insert.is_empty() && c.chance(60) {
+                let j = c.below(insert.len());
+                let (dk, dv) = insert[j].clone();
+                let v2 = if c.bool() { dv } else { gen_str_value(c) };
+                let at = c.below(insert.len() + 1);
+                insert.insert(at, (dk, v2));
+            }
+            if !insert.is_empty() && c.chance(60) {
+                let j = c.below(insert.len());
+                let at = c.below(remove.len() + 1);
+                remove.insert(at, insert[j].0.clone());
+            }
+            if c.chance(20) {
+                // long lists
+                for j in 0..c.range(4, 12) {
+                    insert.push((vec![b'q', j as u8], vec![j as u8]));
+                    if c.bool() {
+                        remove.push(vec![b'q', (j / 2) as u8]);
+                    }
+                }
+            }
             Op::RemoveInsert { remove, insert, k }
         }
         18 => Op::SetPublicKey { pk_of: if c.chance(60) { c.below(nkeys) } else { k }, k },
@@ -658,6 +685,36 @@ pub fn exhaustive_keys(fam: FamId) -> Vec<Secret> {
     let p = pool().of(fam.scheme());
     // a random-looking key and an edge scalar
     vec![Secret(p[p.len() - 1]), Secret(p[3 % p.len()])]
+}
+
+/// Long histories that repeat a small cycle of calls several hundred times (internal counters,
+/// accumulations, caches that are only refreshed every so often).
+pub fn long_repeats(quick: bool) -> Vec<History> {
+    let n = if quick { 300 } else { 1200 };
+    let mut out = Vec::new();
+    let fams: &[FamId] = if quick { &[FamId::K256, FamId::CombinedEd] } else { &ALL_FAMS };
+    for fam in fams {
+        let keys = exhaustive_keys(*fam);
+        let cycles: Vec<Vec<Op>> = vec![
+            vec![Op::SetPort { which: PortKey::Udp, port: 1, k: 0 }, Op::SetPort { which: PortKey::Udp, port: 2, k: 0 }],
+            vec![
+                Op::Insert { key: b"x".to_vec(), val: TVal::U8(1), k: 0 },
+                Op::RemoveKey { key: b"x".to_vec(), k: 0 },
+                Op::SetIp { ip: "10.0.0.1".parse().unwrap(), k: 1 },
+                Op::CloneSwap,
+            ],
+            vec![Op::SetPort { which: PortKey::Tcp6, port: 9, k: 0 }],
+            vec![Op::RemoveInsert { remove: vec![b"a".to_vec()], insert: vec![(b"a".to_vec(), vec![1]), (b"b".to_vec(), vec![2])], k: 0 }, Op::Redecode],
+        ];
+        for (ci, cyc) in cycles.into_iter().enumerate() {
+            if quick && ci >= 2 && *fam != FamId::K256 {
+                continue;
+            }
+            let ops: Vec<Op> = (0..n).map(|i| cyc[i % cyc.len()].clone()).collect();
+            out.push(History { fam: *fam, keys: keys.clone(), init: Init::Builder { calls: vec![] }, ops, fault_at: None, alt_keys: vec![] });
+        }
+    }
+    out
 }
 
 /// depth-1 enumeration (every alphabet operation from every initial record) for every family not in `done`
